@@ -126,13 +126,18 @@ package proxy
 //@ use caskethttp/httpserver/contracts_verif.go:new_replacer
 //@ func (*bufferedBody).rewind
 //@ func (Proxy).match
+//@   requires r != nil && r.URL != nil && forall(k, 0, len(p.Upstreams), p.Upstreams[k] != nil)
 //@ func NewSingleHostReverseProxy
-//@   ensures result != nil
+//@   requires target != nil
+//@   ensures result != nil && result.dialer != nil && result.FlushInterval >= 0
 //@ func (*ReverseProxy).ServeHTTP
+//@   modifies MD:map[string][]string, MV:map[string][]string, URL.Scheme
+//@   requires rp != nil && rp.dialer != nil && rp.FlushInterval >= 0 && rw != nil && outreq != nil && outreq.URL != nil && outreq.Header != nil
 //@   may_panic
 //@ func createUpstreamRequest
+//@   modifies MV:map[string][]string, MD:map[string][]string, Request.Header, Request.Body
 //@   requires [request_with_headers] r != nil && r.Header != nil
-//@   ensures result0 != nil
+//@   ensures result0 != nil && result0.Header != nil && result0.URL == r.URL
 //@ extern net/url.Parse
 //@   ensures result1 == nil ==> result0 != nil
 
@@ -151,6 +156,10 @@ package proxy
 //@   ensures result1 == nil ==> (holdsAll(result0, r) && unshared(result0))
 //@ extern bytes.NewReader
 //@   ensures result != nil
+//@ // a backend handed out by a pool carries no reverse proxy (one is made per request) or one made by the constructor, i.e.
+//@ // with its dialer (NewHost: unit upstream_hosts; constructor: reverse_proxy_rest_sweep) - assumed of the interface
+//@ extern invoke:(github.com/tmpim/casket/caskethttp/proxy.Upstream).Select
+//@   ensures result != nil ==> (result.ReverseProxy == nil || (result.ReverseProxy.dialer != nil && result.ReverseProxy.FlushInterval >= 0))
 //@ extern invoke:(github.com/tmpim/casket/caskethttp/proxy.Upstream).GetHostCount
 //@   pure
 //@ extern invoke:(github.com/tmpim/casket/caskethttp/proxy.Upstream).GetTryDuration
@@ -161,7 +170,13 @@ package proxy
 //@ ghost lastTooLarge int
 //@ ghost upRulesRun int
 //@ ghost downFnMade int
+//@ // header_rules proves this function under `headers != rules` as well (the request's header map is not the block's rule
+//@ // map). That separation is NOT demanded here: the outgoing request's map is the client's own or a copy made by
+//@ // createUpstreamRequest, the rule map was built by the setup, and the engine has no way to say "allocated by net/http
+//@ // for this request" - an explicit, undischarged premise of C04's header-rule clauses
 //@ func mutateHeadersByRules
+//@   modifies MV:map[string][]string, MD:map[string][]string
+//@   requires headers != nil
 //@ func createRespHeaderUpdateFn
 //@ spec tl(e error, t error) int
 //@ extern errors.Is
@@ -172,9 +187,12 @@ package proxy
 //@ invariant httpserver.ErrMaxBytesExceeded != nil
 //@ axiom (e error, t error) (tl(e, t) == 1) == errors.Is(e, t)
 //@ func (Proxy).ServeHTTP
-//@   modifies Request.Body, Request.Host, UpstreamHost.Fails, ghost:downFnMade, ghost:lastBuffered, ghost:lastTooLarge, ghost:upRulesRun
+//@   modifies Request.Body, Request.Host, UpstreamHost.Fails, ghost:downFnMade, ghost:lastBuffered, ghost:lastTooLarge, ghost:upRulesRun, MD:map[string][]string, MV:map[string][]string, URL.Scheme, Request.Header
 //@   may_panic
 //@   requires r != nil && r.Header != nil && w != nil && lastBuffered == 0 && lastTooLarge == 0
+//@   // a live request has its URL; the handler's upstream blocks are the ones the setup built (unit proxy_setup: NewStaticUpstreams
+//@   // returns no nil entry)
+//@   requires r.URL != nil && forall(k, 0, len(p.Upstreams), p.Upstreams[k] != nil)
 //@   at call (*ReverseProxy).ServeHTTP do lastTooLarge = tl(result, httpserver.ErrMaxBytesExceeded)
 //@   // C04 "exactly the configured header_upstream / header_downstream changes applied": a backend whose block has a rule
 //@   // set for a direction (plain rules and regex replacements live in separate maps; the plain map is non-nil whenever the
@@ -240,6 +258,7 @@ package proxy
 //@   requires r != nil && r.Header != nil
 //@   modifies MV:map[string][]string, MD:map[string][]string, Request.Header, Request.Body
 //@   ensures [fresh_request] result0 != nil && result0 != r && result0.Header != nil
+//@   ensures [same_url_object] result0.URL == old(r.URL)
 //@   ensures [hop_removed] forall(j, 0, len(hopHeaders), !has(result0.Header, hopHeaders[j]))
 //@   ensures [connection_all_values] forall(a, 0, len(old(r.Header["Connection"])), forall(b, 0, ntok(old(r.Header["Connection"])[a]), named(old(r.Header["Connection"])[a], b) ==> !has(result0.Header, nm(old(r.Header["Connection"])[a], b))))
 //@   at call (net/http.Header).Set before [client_address_appended_to_all_prior_forwarded_for_values] (arg1 == "X-Forwarded-For" && has(outreq.Header, "X-Forwarded-For")) ==> arg2 == strings.Join(outreq.Header["X-Forwarded-For"], ", ") + ", " + hostOf(r.RemoteAddr)
@@ -369,12 +388,15 @@ package proxy
 //@ // non-positive one (in a goroutine nobody recovers: the process dies after a load that reported success). Invariant of
 //@ // an upstream under construction: the interval is never negative, and positive once a health-check path is set (the
 //@ // worker is only started then); every accepted sub-directive keeps it.
-//@ define hcOK(u *staticUpstream) bool = u.HealthCheck.Interval >= 0 && (u.HealthCheck.Path != "" ==> u.HealthCheck.Interval > 0) && u.upstreamHeaderReplacements != nil && u.downstreamHeaderReplacements != nil && u.upstreamHeaders != nil && u.downstreamHeaders != nil
+//@ define hcOK(u *staticUpstream) bool = u.HealthCheck.Interval >= 0 && (u.HealthCheck.Path != "" ==> u.HealthCheck.Interval > 0) && u.upstreamHeaderReplacements != nil && u.downstreamHeaderReplacements != nil && u.upstreamHeaders != nil && u.downstreamHeaders != nil && u.resolver != nil
 //@ use @verif/specs/stdlib.spec:time_sinks
 //@ use casketfile/contracts_verif.go:dispenser_api
 //@ func (*staticUpstream).healthCheck
+//@   requires u != nil && u.resolver != nil && forall(k, 0, len(u.Hosts), u.Hosts[k] != nil)
 //@ func (*staticUpstream).HealthCheckWorker
 //@   requires u != nil && u.HealthCheck.Interval > 0
+//@   // the pool as its constructor leaves it: a resolver, and backends that exist
+//@   requires u.resolver != nil && forall(k, 0, len(u.Hosts), u.Hosts[k] != nil)
 //@ func (headerReplacements).Add
 //@   requires [table_exists] h != nil
 //@   modifies MV:map[string][]github.com/tmpim/casket/caskethttp/proxy.headerReplacement, MD:map[string][]github.com/tmpim/casket/caskethttp/proxy.headerReplacement, E:github.com/tmpim/casket/caskethttp/proxy.headerReplacement
@@ -394,6 +416,8 @@ package proxy
 //@ use @verif/specs/stdlib.spec:stdlib
 //@ use caskethttp/proxy/contracts_verif.go:health_check_interval
 //@ use caskethttp/proxy/contracts_verif.go:upstream_ports
+//@ // the standard library's default resolver exists (package-level variable of net, set by its initialiser): assumed
+//@ invariant net.DefaultResolver != nil
 //@ ghost optionsParsed int
 //@ ghostfn createdAt
 //@ func (*staticUpstream).NewHost
@@ -404,6 +428,7 @@ package proxy
 //@ func NewStaticUpstreams$1
 //@   modifies WaitGroup.noCopy, WaitGroup.sema, WaitGroup.state
 //@   requires upstream != nil && upstream.HealthCheck.Interval > 0
+//@   requires upstream.resolver != nil && forall(k, 0, len(upstream.Hosts), upstream.Hosts[k] != nil)
 //@ func NewStaticUpstreams
 //@   modifies staticUpstream, Client.CheckRedirect, Client.Jar, Client.Timeout, Client.Transport, Dispenser.cursor, Dispenser.nesting, E:*github.com/tmpim/casket/caskethttp/proxy.UpstreamHost, E:github.com/tmpim/casket/caskethttp/proxy.headerReplacement, MD:map[string][]github.com/tmpim/casket/caskethttp/proxy.headerReplacement, MV:map[string][]github.com/tmpim/casket/caskethttp/proxy.headerReplacement, Uint64._, Uint64.v, WaitGroup.noCopy, WaitGroup.sema, WaitGroup.state, ghost:createdAt, ghost:optionsParsed, staticUpstream.CaCertPool, staticUpstream.ClientKeyPair, staticUpstream.FailTimeout, staticUpstream.FallbackDelay, staticUpstream.HealthCheck, staticUpstream.Hosts, staticUpstream.IgnoredSubPaths, staticUpstream.KeepAlive, staticUpstream.MaxConns, staticUpstream.MaxFails, staticUpstream.Policy, staticUpstream.Timeout, staticUpstream.TryDuration, staticUpstream.TryInterval, staticUpstream.WithoutPathPrefix, staticUpstream.downstreamHeaderReplacements, staticUpstream.downstreamHeaders, staticUpstream.from, staticUpstream.insecureSkipVerify, staticUpstream.resolver, staticUpstream.stop, staticUpstream.upstreamHeaderReplacements, staticUpstream.upstreamHeaders, staticUpstream.wg
 //@   requires optionsParsed == 0
@@ -412,14 +437,18 @@ package proxy
 //@   at call builtin:append#3 assert [backends_created_after_all_options] forall(k, 0, len(upstream.Hosts), createdAt(upstream.Hosts[k]) == optionsParsed)
 //@   loop 2 invariant upstream != nil && hcOK(upstream)
 //@   loop 3 invariant upstream != nil && hcOK(upstream)
-//@   loop 4 invariant 0 <= #i && #i <= len(to) && len(upstream.Hosts) == len(to) && upstream != nil && hcOK(upstream) && forall(k, 0, #i, createdAt(upstream.Hosts[k]) == optionsParsed)
+//@   loop 4 invariant 0 <= #i && #i <= len(to) && len(upstream.Hosts) == len(to) && upstream != nil && hcOK(upstream) && forall(k, 0, #i, createdAt(upstream.Hosts[k]) == optionsParsed && upstream.Hosts[k] != nil)
 
 //@ unit response_hop_headers frames=on props=C04 filter=`proxy\.ReverseProxy\)\.ServeHTTP$`
 //@ func shallowCopyTrailers
+//@   modifies MV:map[string][]string, MD:map[string][]string
+//@   requires dstHeader != nil
 //@ func requestIsWebsocket
+//@   requires req != nil
 //@   pure
 //@ func newConnHijackerTransport
 //@ func (*ReverseProxy).copyResponse
+//@   requires rp != nil && rp.FlushInterval >= 0
 //@ func copyHeader
 //@   modifies MV:map[string][]string, MD:map[string][]string
 //@ // Response side of "hop-by-hop headers (including any named in Connection) removed": when the static hop-by-hop list
@@ -450,7 +479,7 @@ package proxy
 //@ func (*ReverseProxy).ServeHTTP
 //@   modifies MD:map[string][]string, MV:map[string][]string, URL.Scheme
 //@   may_panic
-//@   requires rp != nil && rp.dialer != nil && rw != nil && outreq != nil && outreq.URL != nil && outreq.Header != nil
+//@   requires rp != nil && rp.dialer != nil && rp.FlushInterval >= 0 && rw != nil && outreq != nil && outreq.URL != nil && outreq.Header != nil
 //@   at call (net/http.Header).Del#2 before [headers_named_on_every_connection_line_are_gone] forall(a, 0, len(res.Header["Connection"]), forall(b, 0, ntok(res.Header["Connection"][a]), listed(res.Header["Connection"][a], b) ==> !has(res.Header, nm(res.Header["Connection"][a], b))))
 //@   // proof: #r1 is the list of Connection lines the outer loop ranges over (taken once); while the response still has a
 //@   // Connection entry it is that list (a line may name "Connection" itself, which removes the entry)
@@ -533,7 +562,7 @@ package proxy
 //@ // representation invariant of proxies built by NewSingleHostReverseProxy: a dialer is set
 //@ func (*ReverseProxy).ServeHTTP
 //@   may_panic
-//@   requires rp != nil && rp.dialer != nil && rw != nil && outreq != nil && outreq.URL != nil && outreq.Header != nil
+//@   requires rp != nil && rp.dialer != nil && rp.FlushInterval >= 0 && rw != nil && outreq != nil && outreq.URL != nil && outreq.Header != nil
 
 //@ unit helper_frames frames=on props=C11 nilchecks=on filter=`proxy\.createRespHeaderUpdateFn$`
 //@ // helpers that other units call through an empty contract ("frame-empty, promises nothing"): here each is verified
@@ -675,6 +704,11 @@ package proxy
 //@   ensures result != nil
 //@ // representation: a hijacked connection belongs to its transport; the flush writer's interval is the proxy's
 //@ // FlushInterval, which the constructor sets to 250 ms (a negative one would make time.NewTicker panic)
+//@ // the constructor hands out a proxy with its dialer and a non-negative flush interval: what ReverseProxy.ServeHTTP and
+//@ // copyResponse require of their receiver (units response_hop_headers, proxy_conns)
+//@ func NewSingleHostReverseProxy
+//@   requires target != nil
+//@   ensures [a_proxy_with_its_dialer_and_flush_interval] result != nil && result.dialer != nil && result.FlushInterval >= 0
 //@ func (*hijackedConn).Read
 //@   requires c != nil && c.hj != nil && c.Conn != nil
 //@ func (*maxLatencyWriter).flushLoop
@@ -691,7 +725,7 @@ package proxy
 //@ ghost registered int
 //@ ghost shutdownRegs int
 //@ func NewStaticUpstreams
-//@   modifies ghost:built
+//@   modifies ghost:built, Dispenser.cursor, Dispenser.nesting, WaitGroup.noCopy, WaitGroup.sema, WaitGroup.state
 //@   ensures built == old(built) + 1
 //@   ensures result1 == nil ==> forall(k, 0, len(result0), result0[k] != nil)
 //@ extern (github.com/tmpim/casket/caskethttp/httpserver.SiteConfig).Host
@@ -703,7 +737,7 @@ package proxy
 //@   ensures shutdownRegs == old(shutdownRegs) + 1
 //@ func setup
 //@   requires c != nil && built == 0 && registered == 0 && shutdownRegs == 0
-//@   modifies ghost:built, ghost:registered, ghost:shutdownRegs
+//@   modifies ghost:built, ghost:registered, ghost:shutdownRegs, Dispenser.cursor, Dispenser.nesting, WaitGroup.noCopy, WaitGroup.sema, WaitGroup.state
 //@   at call (*github.com/tmpim/casket/caskethttp/httpserver.SiteConfig).AddMiddleware before [registered_after_this_runs_own_parse] built == 1
 //@   ensures [one_handler_and_one_shutdown_callback_per_upstream] built == 1 && (result == nil ==> (registered == 1 && shutdownRegs == len(upstreams))) && (result != nil ==> (registered == 0 && shutdownRegs == 0))
 //@   loop 1 invariant 0 <= #i && #i <= len(upstreams) && shutdownRegs == #i && registered == 1 && built == 1
